@@ -64,6 +64,8 @@ class Ctl:
         self.bad = []
         self.mgrs = {}        # callee idx -> manager object the caller holds around the call
         self.nobs = 0
+        self.nsince = 0
+        self.since_bad = []
 
     # ---- script
     def pop(self):
@@ -131,7 +133,41 @@ class Ctl:
                     [(type(w[0]).__name__, getattr(w[0], "tag", None), w[1], w[2]) for w in wantc], cm)))
                 return
 
+    def observe_since(self):
+        """C04 under greenback: extract_since(None) from inside a task whose frames are spread over the portal's
+        greenlets is exactly the thread's frame chain, continued through the greenlet parents (the way an exception
+        would propagate), down to the caller"""
+        import greenlet
+        truth, f, g = [], sys._getframe(0), greenlet.getcurrent()
+        while True:
+            while f is not None:
+                truth.append(f)
+                f = f.f_back
+            g = g.parent
+            if g is None:
+                break
+            f = g.gr_frame
+        truth.reverse()
+        try:
+            with warnings.catch_warnings(record=True):
+                warnings.simplefilter("always")
+                st = stackscope.extract_since(None)
+        except BaseException as ex:
+            self.since_bad.append({"step": self.k, "what": "extract_since(None) raised %r" % (ex,), "acts": self.acts[:self.k]})
+            return
+        self.nsince += 1
+        got = [fr.pyframe for fr in st.frames]
+        if got != truth or st.error is not None:
+            names = lambda fs: [x.f_code.co_name for x in fs]       # noqa: E731
+            k = 0
+            while k < min(len(got), len(truth)) and got[k] is truth[k]:
+                k += 1
+            self.since_bad.append({"step": self.k, "acts": self.acts[:self.k],
+                                   "what": "extract_since(None) inside a greenback task: %d frames, the thread has %d; they differ from "
+                                           "index %d: ...%s vs ...%s (error %r)" % (len(got), len(truth), k, names(got[k:k + 4]), names(truth[k:k + 4]), st.error)})
+
     def observe_inside(self):
+        self.observe_since()
         task = trio.lowlevel.current_task()
         with warnings.catch_warnings(record=True) as wl:
             warnings.simplefilter("always")
@@ -241,12 +277,14 @@ def run_behaviour(beh):
 
 def main():
     data = json.load(open(sys.argv[1]))
-    out = {"n": 0, "observations": 0, "mismatches": []}
+    out = {"n": 0, "observations": 0, "mismatches": [], "since_n": 0, "since_mismatches": []}
     for beh in data["behaviours"]:
         ctl = run_behaviour(beh)
         out["n"] += 1
         out["observations"] += ctl.nobs
         out["mismatches"] += ctl.bad[:2]
+        out["since_n"] += ctl.nsince
+        out["since_mismatches"] += ctl.since_bad[:2]
     json.dump(out, open(sys.argv[2], "w"), default=repr)
 
 
